@@ -11,7 +11,8 @@ SPEC = {
               13: "query_decode_stable (options decoded from a query re-encode to themselves)",
               14: "names_roundtrip (status filter / pin type / pin mode through its string form)",
               15: "msgpack_roundtrip (a well-formed record through the msgpack codec)",
-              16: "json_roundtrip (a well-formed record through encoding/json)"},
+              16: "json_roundtrip (a well-formed record through encoding/json)",
+              17: "equals_detects_every_field (Pin.Equals / PinOptions.Equals against field-by-field sameness)"},
     "gen": ["C08Status", "C08Tags"],
     "force": ["Gen/C08Status.v", "Gen/C08Tags.v", "Model/C08_Status.v", "Proofs/C08_Status.v", "Model/C08_Check.v"],
     "diag": True,
